@@ -1,6 +1,6 @@
 (* C15 — proofs: pool geometry, pool invariant over all histories, block predicate. *)
 From Coq Require Import List NArith Bool Arith Lia Permutation.
-From DuneV Require Import C15_Model C15_Spec.
+From DuneV Require Import Params_gen C15_Model C15_Spec.
 Import ListNotations.
 Local Open Scope N_scope.
 
@@ -16,7 +16,7 @@ Qed.
 Lemma c15_roundup_spec x al : al <> 0 ->
   (al | c15_roundup x al) /\ x <= c15_roundup x al /\ c15_roundup x al < x + al.
 Proof.
-  intros Hal. unfold c15_roundup.
+  intros Hal. unfold c15_roundup, c15_roundup_gen.
   destruct (x mod al =? 0) eqn:E.
   - apply N.eqb_eq in E. split; [apply N.mod_divide; assumption|lia].
   - apply N.eqb_neq in E.
@@ -57,7 +57,7 @@ Lemma c15_geom_raw_good sT aT s : 1 <= sT -> 1 <= aT -> c15_geom_in_range sT aT 
   c15_geom_good sT aT (c15_geom_raw sT aT s).
 Proof.
   intros HsT HaT Hr.
-  unfold c15_geom_in_range in Hr. repeat rewrite andb_true_iff in Hr. repeat rewrite N.leb_le in Hr.
+  unfold c15_geom_in_range, c15_param_roundup_add_aligned, c15_param_roundup_add_chunk in Hr. repeat rewrite andb_true_iff in Hr. repeat rewrite N.leb_le in Hr.
   destruct Hr as ((((Hs & HsT') & Hal') & Hu') & Hsz').
   remember (c15_geom_raw sT aT s) as g eqn:Eg.
   assert (Hal : g_alignment g <> 0).
@@ -79,10 +79,10 @@ Proof.
   rewrite <- EA in *. rewrite <- EC in *.
   assert (Has : g_alignedSize g <> 0) by (unfold c15_sizeofRef in *; lia).
   assert (HCS : g_chunkSize g <= (g_size g / g_alignment g + 1) * g_alignment g).
-  { rewrite EC. unfold c15_roundup. destruct (g_size g mod g_alignment g =? 0) eqn:E; [|lia].
+  { rewrite EC. unfold c15_roundup, c15_roundup_gen. destruct (g_size g mod g_alignment g =? 0) eqn:E; [|lia].
     pose proof (N.div_mod (g_size g) _ Hal). pose proof (N.mod_upper_bound (g_size g) _ Hal). nia. }
   assert (HAS : g_alignedSize g <= (g_unionSize g / g_alignment g + 1) * g_alignment g).
-  { rewrite EA. unfold c15_roundup. destruct (g_unionSize g mod g_alignment g =? 0) eqn:E; [|lia].
+  { rewrite EA. unfold c15_roundup, c15_roundup_gen. destruct (g_unionSize g mod g_alignment g =? 0) eqn:E; [|lia].
     pose proof (N.div_mod (g_unionSize g) _ Hal). pose proof (N.mod_upper_bound (g_unionSize g) _ Hal). nia. }
   constructor; try lia; try assumption.
   - subst g; cbn. apply N.divide_lcm_l.
@@ -110,7 +110,7 @@ Lemma c15_geom_in_range_sufficient sT aT s :
   1 <= sT -> 1 <= aT -> sT + 8 * aT + 8 <= c15_int_max -> s + 8 * aT <= c15_int_max ->
   c15_geom_in_range sT aT s = true.
 Proof.
-  intros HsT HaT H1 H2. unfold c15_geom_in_range.
+  intros HsT HaT H1 H2. unfold c15_geom_in_range, c15_param_roundup_add_aligned, c15_param_roundup_add_chunk.
   set (g := c15_geom_raw sT aT s).
   assert (Hal : g_alignment g <> 0).
   { subst g; cbn. intro H. apply N.lcm_eq_0 in H. unfold c15_alignofRef in H. lia. }
@@ -425,7 +425,7 @@ Proof.
       split; [exact IH1|split; [exact IH2|exact IH3]]. }
     destruct op as [n|i|i n|nl|k|i k]; cbn [c15_ops_ok] in Hok.
     + (* allocate(n) *)
-      cbn [c15_run c15_step]. unfold c15_pa_allocate.
+      cbn [c15_run c15_step]. unfold c15_pa_allocate, c15_param_pa_alloc_n.
       destruct (n =? 1) eqn:En.
       * destruct (c15_alloc_step g sT aT st GG Hinv) as (b & p' & Ea & Hinv' & Hnin & Hval & Hlen & Hle).
         rewrite Ea.
